@@ -733,6 +733,56 @@ pub fn run(ctx: &mut Ctx) {
     }
     ctx.bucket("frames/ip-header-length-fields");
 
+    // ---- W4b: link-layer grid: every 16-bit value in the EtherType position (quick: the assigned
+    // ones -- IPv4, IPv6, ARP, 802.1Q/802.1ad/QinQ tags, MPLS, PPPoE, LLDP, jumbo -- plus a
+    // stride), and every first-word value a NULL/loopback reading looks at, on frames of every
+    // length from 0 to 26 and of full length: runt and snap-truncated frames of formats the
+    // parsers may or may not know
+    st.tag = "link-layer-grid";
+    let syn = pkt::build(Link::RawIp, &Ip::V4(V4::default()), &Tcp { flags: pkt::flags::SYN, options: pkt::opt_mss(1460), ..Default::default() });
+    let syn6 = pkt::build(Link::RawIp, &Ip::V6(V6::default()), &Tcp { flags: pkt::flags::SYN, options: pkt::opt_mss(1440), ..Default::default() });
+    let assigned: [u16; 16] = [0x0800, 0x86dd, 0x0806, 0x8100, 0x88a8, 0x9100, 0x9200, 0x8847, 0x8848, 0x8863, 0x8864, 0x88cc, 0x8870, 0x0000, 0xffff, 0x05dc];
+    let stride = ctx.scale(257, 1, 8191) as u32;
+    let mut et: u32 = 0;
+    while et <= 0xffff {
+        let e = et as u16;
+        et += if assigned.contains(&e) || stride == 1 { 1 } else { stride };
+        idx += 1;
+        if !ctx.mine(idx) {
+            continue;
+        }
+        for inner in [&syn, &syn6] {
+            let mut f = vec![0x02, 0, 0x5e, 0x10, 0, 1, 0x02, 0, 0x5e, 0x10, 0, 2, (e >> 8) as u8, e as u8];
+            // a tag-like continuation: TCI, then the EtherType of the inner packet
+            f.extend_from_slice(&[0x00, 0x64, if inner[0] >> 4 == 4 { 0x08 } else { 0x86 }, if inner[0] >> 4 == 4 { 0x00 } else { 0xdd }]);
+            f.extend_from_slice(inner);
+            for len in (0..=26usize).chain([f.len()]) {
+                hostile_frame(ctx, &mut st, &f[..len.min(f.len())]);
+            }
+        }
+    }
+    for a in assigned {
+        for len in 0..=26usize {
+            // the assigned values right behind each other (stacked tags) and a bare header
+            let mut f = vec![0xff; 12];
+            for _ in 0..4 {
+                f.extend_from_slice(&a.to_be_bytes());
+                f.extend_from_slice(&[0x00, 0x01]);
+            }
+            hostile_frame(ctx, &mut st, &f[..len.min(f.len())]);
+        }
+    }
+    for fam in [[2u8, 0, 0, 0], [0, 0, 0, 2], [0x1e, 0, 0, 0], [0x1c, 0, 0, 0], [0x18, 0, 0, 0], [0, 0, 0, 0x1e], [0, 0, 0, 0x18], [0x1e, 0, 0, 0x1e]] {
+        for inner in [&syn, &syn6] {
+            let mut f = fam.to_vec();
+            f.extend_from_slice(inner);
+            for len in (0..=26usize).chain([f.len()]) {
+                hostile_frame(ctx, &mut st, &f[..len.min(f.len())]);
+            }
+        }
+    }
+    ctx.bucket("frames/link-layer-grid");
+
     // ---- W5: connections crafted to leave state behind, each followed at once by the probe
     st.tag = "stateful-poison";
     let poisons = stateful_poisons(&mut ctx.rng_global(1, 5));
